@@ -297,8 +297,11 @@ Inductive cmode := CNone | CAuto | CForce | CEverything.  (* keep files | keep_i
 Record op := mkOp { o_req : request;                       (* the CURRENT fields of the calculation object *)
                     o_out : outcome; o_cm : cmode;
                     o_aux : list str;                      (* additional input files the wrapper declares (oracle) *)
-                    o_start : option str }.                (* Some b: a re-used / copied Calculation object that
+                    o_start : option str;                  (* Some b: a re-used / copied Calculation object that
                                                               already carries calculation name b; None: new object *)
+                    o_stale : list str }.                  (* additional files a re-used object still DECLARES from
+                                                              earlier runs but does not write again (wrappers only
+                                                              ever append to input.additional_filenames) *)
 Definition op_start (o : op) : str := match o_start o with Some b => b | None => base_name (o_req o) end.
 Record obs := mkObs { ob_name : str; ob_invoked : bool;
                       ob_energy : option request;          (* whose output the parsed energy comes from *)
@@ -340,13 +343,15 @@ Definition exec_op (st : state) (o : op) : state * obs :=
   let R1 := fst (reg_step_from (st_reg st) (op_start o) r) in                  (* generate_input: _fix_unique *)
   let N := snd (reg_step_from (st_reg st) (op_start o) r) in
   let outF := N ++ out_ext m in
-  let inputs := (N ++ in_ext m) :: o_aux o in
+  let inputs := (N ++ in_ext m) :: o_aux o in                                 (* written by this run *)
+  let declared := inputs ++ o_stale o in                                      (* input.filenames *)
   let fs1 := stage_inputs N inputs (st_fs st) in
+  let inp_ok := forallb (fs_exists fs1) declared in                           (* input.exists, else NoInputError (:134-135) *)
   let skip := reuse_rule (fs_exists fs1 outF) (fs_normal fs1 outF) in           (* _execute_external *)
-  let fs2 := stage_program skip (o_out o) N outF r fs1 in
-  let res := stage_result fs2 outF in
-  let fs3 := stage_cleanup (o_cm o) (snd res) N inputs outF fs2 in
-  (mkState R1 fs3, mkObs N (negb skip) (fst (fst res)) (snd (fst res))).
+  let fs2 := if inp_ok then stage_program skip (o_out o) N outF r fs1 else fs1 in
+  let res := if inp_ok then stage_result fs2 outF else (None, true, false) in
+  let fs3 := stage_cleanup (o_cm o) (snd res) N declared outF fs2 in
+  (mkState R1 fs3, mkObs N (inp_ok && negb skip) (fst (fst res)) (snd (fst res))).
 
 (* ------------------------------------------------------------------ optimisations with autodE's own optimisers *)
 (* CalculationExecutorO (executors.py:343-474): the name is made unique in __init__ (:350); run()
@@ -355,9 +360,11 @@ Definition exec_op (st : state) (o : op) : state * obs :=
    external io, so clean_up is a no-op (:188-189) and nothing else is written. *)
 Definition trj_name (N : str) : str := N ++ s2l trj_suffix.
 Definition trj_xyz (N : str) : str := N ++ s2l "_opt_trj.xyz".
-Definition exec_opt (st : state) (r : request) : state * obs :=
-  let R1 := fst (reg_step (st_reg st) r) in
-  let N := snd (reg_step (st_reg st) r) in
+(* r0: the fields the object had when it was BUILT (the only moment the registry is consulted),
+   r: the fields it has when run() is called *)
+Definition exec_opt_late (st : state) (r0 r : request) : state * obs :=
+  let R1 := fst (reg_step (st_reg st) r0) in
+  let N := snd (reg_step (st_reg st) r0) in
   match fs_find (st_fs st) (trj_name N) with
   | Some (mkFile _ _ (KTraj c)) => (mkState R1 (st_fs st), mkObs N false (Some (c_producer c)) false)
   | Some _ => (mkState R1 (st_fs st), mkObs N false None true)      (* not a trajectory: the reload fails *)
@@ -365,6 +372,8 @@ Definition exec_opt (st : state) (r : request) : state * obs :=
                           (fs_write (mkFile (trj_name N) N (KTraj (mkContent true r))) (st_fs st))),
              mkObs N true (Some r) false)
   end.
+(* the calculation is built and run without being changed in between *)
+Definition exec_opt (st : state) (r : request) : state * obs := exec_opt_late st r r.
 (* a history may mix both kinds of calculation *)
 Inductive gop := GExt (o : op) | GOpt (r : request).
 Definition exec_gop (st : state) (g : gop) : state * obs :=
